@@ -288,14 +288,17 @@ func c06StaticHistory(c *Ctx) {
 
 // Symbols of the fresh-process alphabet: the same calendar dates / start dates under
 // different zones, so that anything cached per process across calls shows.
-var c06FreshSymbols = []string{"static/New_York", "static/Kolkata", "rt/New_York", "rt/UTC", "rt/London"}
+var c06FreshSymbols = []string{"static/New_York", "static/Kolkata", "rt/New_York", "rt/UTC", "rt/London", "static/unknown-zone"}
 
 func c06FreshInput(sym int) (static []byte, rt []byte, tz *time.Location) {
 	switch sym {
-	case 0, 1:
+	case 0, 1, 5:
 		m := genStaticFeedN(&Ctx{}, false, baseCounts, nil, nil)
 		if sym == 1 {
 			m.t("agency.txt").set(0, "agency_timezone", "Asia/Kolkata")
+		}
+		if sym == 5 {
+			m.t("agency.txt").set(0, "agency_timezone", "Mars/Phobos") // unknown: dates fall back to UTC
 		}
 		return renderFeed(m, presentation{}), nil, nil
 	}
@@ -391,7 +394,7 @@ func init() {
 	register(&Check{
 		ID:    "C06",
 		Level: "model_checking",
-		Rule: "(1) every combination of iteration starts at every library map range (choice points owned through the runtime overlay) for a static archive with 3 services/3 shapes/3 trips/3 sibling stops and a realtime message with 3 id-bearing vehicles, 3 trips and an alert with 3 fall-back routes; (2) all call sequences of <= 3 (thorough <= 4) over 6 feeds on ONE shared options/extension object for each of 29 configurations (nil Extension, 4 nycttrips, 24 nyctalerts), and all sequences of <= 3 static parses over 3 archives x inherit option; (3) relation (bytes, configuration) -> dump over every parse of the run, across worker processes; (4) all histories of <= 3 calls over {static archive in New_York / Kolkata, realtime feed under New_York / UTC / London} each executed in its own pristine process and compared call by call with single-call pristine processes; " +
+		Rule: "(1) every combination of iteration starts at every library map range (choice points owned through the runtime overlay) for a static archive with 3 services/3 shapes/3 trips/3 sibling stops and a realtime message with 3 id-bearing vehicles, 3 trips and an alert with 3 fall-back routes; (2) all call sequences of <= 3 (thorough <= 4) over 6 feeds on ONE shared options/extension object for each of 29 configurations (nil Extension, 4 nycttrips, 24 nyctalerts), and all sequences of <= 3 static parses over 3 archives x inherit option; (3) relation (bytes, configuration) -> dump over every parse of the run, across worker processes; (4) all histories of <= 3 calls over {static archive in New_York / Kolkata / an unknown zone, realtime feed under New_York / UTC / London} each executed in its own pristine process and compared call by call with single-call pristine processes; " +
 			"non-trivial = distinct histories of >= 2 calls or inputs with a >= 3-entry library map; oracle = differential (rotated vs. fixed order, reused vs. fresh object) with content and order compared",
 		Assumptions: []string{"library maps are single-bucket (<= 8 entries) in these inputs, so rotations are all achievable orders; uncontrolled_maps counts any exception", "process-level state (package variables) is exercised by running histories in 16 separate worker processes that must all agree"},
 		Scenarios: func(tier string) []*Scenario {
